@@ -70,6 +70,10 @@ namespace foonathan
 
             iteration_allocator& operator=(iteration_allocator&& other) noexcept
             {
+                // release own block first, it would be leaked otherwise
+                if (cur_ < N)
+                    get_allocator().deallocate_block(block_);
+
                 allocator_type::operator=(detail::move(other));
                 block_ = other.block_;
                 cur_   = other.cur_;
